@@ -2,7 +2,7 @@
    Angles are in radians inside [true_sep]; [from_rad uout] converts to the requested unit. *)
 From Coq Require Import Reals Lra QArith Qreals List.
 From Coq Require PrimFloat.
-From EsVerif.C08 Require Import Gen Model Spec Proofs Code SrcLib Src SrcProofs SrcLibF SrcF FProofs Cond Final.
+From EsVerif.C08 Require Import Gen Model Spec Proofs Code SrcLib Src SrcProofs SrcLibF SrcF FProofs Cond Cond2 Final.
 Open Scope R_scope.
 
 (* The two formulas of the chord-based function are the great-circle angle of unit vectors. *)
@@ -150,6 +150,31 @@ Proof. exact gcirc_conditioning. Qed.
 
 Theorem C08_cosine_formula_limit : 8e-7 < r2d (acos (1 - / 2 ^ 53) - acos 1).
 Proof. exact cosine_formula_limit. Qed.
+
+(* Conditioning of the two branches of sphdist under the threshold literal of the source (3.99): asin is
+   Lipschitz with constant 1/sqrt(1-m^2) on [-m,m]; an error e in the chord length |u-v| moves the chord-branch
+   result by at most 20.01 e, in the cross-product branch |u x v|^2 <= 1/100 and an error e in |u x v| moves the
+   result by at most 1.006 e; the chord formula alone would amplify without bound towards 180 degrees. *)
+Theorem C08_asin_lipschitz : forall m x y, 0 <= m < 1 -> -m <= x <= m -> -m <= y <= m ->
+  Rabs (asin x - asin y) <= Rabs (x - y) / sqrt (1 - m²).
+Proof. exact asin_lipschitz. Qed.
+
+Theorem C08_branch_conditioning :
+  (forall d d', 0 <= d -> 0 <= d' -> d * d <= sphdist_thr -> d' * d' <= sphdist_thr ->
+     Rabs (2 * asin (/ 2 * d) - 2 * asin (/ 2 * d')) <= 2001 / 100 * Rabs (d - d'))
+  /\ (forall u v, is_unit u -> is_unit v -> sphdist_thr <= nsq (vsub u v) -> nsq (cross u v) <= / 100)
+  /\ (forall s s', 0 <= s <= / 10 -> 0 <= s' <= / 10 ->
+     Rabs ((PI - asin s) - (PI - asin s')) <= 1006 / 1000 * Rabs (s - s')).
+Proof. exact branch_conditioning_thm. Qed.
+
+Theorem C08_chord_alone_ill_conditioned : forall K, 0 < K -> exists m, 0 <= m < 1 /\ K < / sqrt (1 - m²).
+Proof. exact chord_alone_ill_conditioned. Qed.
+
+(* The two functions compute the same quantity (sphdist with units deg -> rad and gcirc). *)
+Theorem C08_functions_agree : forall ra1 dec1 ra2 dec2,
+  sphdist_code Deg Rad ra1 dec1 ra2 dec2 = gcirc_code ra1 dec1 ra2 dec2
+  /\ sphdist_src Deg Rad ra1 dec1 ra2 dec2 = gcirc_src ra1 dec1 ra2 dec2.
+Proof. exact functions_agree_thm. Qed.
 
 (* Non-vacuity: a quarter turn along the equator is 90 degrees in the model as coded (chord
    branch), the antipode is 180 degrees (cross-product branch: |u-v|^2 = 4 >= threshold), and a
